@@ -136,6 +136,21 @@ impl<'a> G<'a> {
             }
         }
     }
+    /// (text, pattern) literals in which the pattern occurs behind a partial copy of its own beginning: a search that
+    /// does not back up after a failed partial match misses the occurrence
+    fn related_pair(&mut self) -> (String, String) {
+        const NEEDLES: &[&str] = &["aab", "-->", "]]>", "ababc", "\u{1F600}\u{1F600}z", "ab", "a", "aa", "\u{e9}\u{e9}\u{e8}", "1.1.2"];
+        let n: Vec<char> = NEEDLES[self.g.pick(NEEDLES.len())].chars().collect();
+        let k = self.g.pick(n.len());
+        let pre = ["", "x", "\u{1F600}", "zz"][self.g.pick(4)];
+        let post = ["", "y", ".", "\u{e9}"][self.g.pick(4)];
+        let partial: String = n[..k].iter().collect();
+        let needle: String = n.iter().collect();
+        // now and then a second, clean occurrence further on (the first one still counts)
+        let again = if self.g.chance(1, 4) { format!("_{}", needle) } else { String::new() };
+        self.lab(if k > 0 { "search:occurrence-behind-a-false-start".into() } else { "search:plain-occurrence".into() });
+        (format!("'{}{}{}{}{}'", pre, partial, needle, post, again), format!("'{}'", needle))
+    }
     fn string(&mut self, d: u32) -> String {
         if d == 0 || self.g.chance(2, 5) {
             let (s, c) = STRS[self.g.pick(STRS.len())];
@@ -153,10 +168,18 @@ impl<'a> G<'a> {
             }
             2 => {
                 self.lab("fn:substring-before".into());
+                if self.g.chance(1, 2) {
+                    let (t, p) = self.related_pair();
+                    return format!("substring-before({}, {})", t, p);
+                }
                 format!("substring-before({}, {})", self.string(d - 1), self.string(d - 1))
             }
             3 => {
                 self.lab("fn:substring-after".into());
+                if self.g.chance(1, 2) {
+                    let (t, p) = self.related_pair();
+                    return format!("substring-after({}, {})", t, p);
+                }
                 format!("substring-after({}, {})", self.string(d - 1), self.string(d - 1))
             }
             4 => {
@@ -225,6 +248,10 @@ impl<'a> G<'a> {
             }
             _ => {
                 self.lab("fn:contains".into());
+                if self.g.chance(1, 3) {
+                    let (t, p) = self.related_pair();
+                    return format!("contains({}, {})", t, p);
+                }
                 format!("contains({}, {})", self.string(d - 1), self.string(d - 1))
             }
         }
